@@ -36,6 +36,11 @@ class FileManager:
                 in_note = False
                 start_idx = i
         end_idx = start_idx + 1
+        if zlines[start_idx].strip() != "":
+            # The page does not end with a blank line (e.g. there is no
+            # trailing newline), so append the note instead of overwriting
+            # the last line.
+            start_idx = end_idx = len(zlines)
         new_zlines = (
             zlines[:start_idx]
             + note.to_string().split("\n")
